@@ -52,20 +52,20 @@ def validate(proc):
     def do_t(t, scopes):
         if isinstance(t, T.Tensor):
             for h in t.hi:
-                do_e(h, scopes)
+                do_e(h, scopes, "allocation extent")
         elif isinstance(t, T.Window):
             use(t.src_buf, scopes, "window type")
 
-    def do_e(e, scopes):
+    def do_e(e, scopes, what="read"):
         if isinstance(e, LoopIR.Read):
-            use(e.name, scopes, "read")
+            use(e.name, scopes, what)
             for i in e.idx:
-                do_e(i, scopes)
+                do_e(i, scopes, what)
         elif isinstance(e, LoopIR.BinOp):
-            do_e(e.lhs, scopes)
-            do_e(e.rhs, scopes)
+            do_e(e.lhs, scopes, what)
+            do_e(e.rhs, scopes, what)
         elif isinstance(e, LoopIR.USub):
-            do_e(e.arg, scopes)
+            do_e(e.arg, scopes, what)
         elif isinstance(e, LoopIR.Extern):
             for a in e.args:
                 do_e(a, scopes)
